@@ -256,6 +256,21 @@ func waitQuiescent() bool {
 	}
 }
 
+// confirmQuiescent is used before any verdict that reads "a goroutine never got there" (an Execute / Close that
+// has not returned, a role that is not parked where the model expects it): the two-poll quiescence is re-established
+// after pauses of increasing length, so that the verdict does not depend on how fast a loaded machine schedules a
+// goroutine that was just made runnable.  It costs time only on the failure paths.
+func confirmQuiescent() bool {
+	ok := true
+	for _, d := range []time.Duration{time.Millisecond, 5 * time.Millisecond, 25 * time.Millisecond} {
+		time.Sleep(d)
+		if !waitQuiescent() {
+			ok = false
+		}
+	}
+	return ok
+}
+
 // goroutineStates returns the state of each goroutine id (for the final "who is left blocked" report).
 func goroutineStates() map[int]string {
 	n := runtime.Stack(stackBuf, true)
